@@ -155,11 +155,17 @@ def main():
         "explanation": getattr(mod, "EXPLANATION", ""),
     }
     cov.update(extra)
+    level = getattr(mod, "LEVEL", "proof")
+    if level == "translation_validation":
+        cov["programs"] = max(tie.get("distinct_nontrivial", 0), 1)
+        cov["disagreements_checked"] = len(tie.get("mismatches", []))
+        if n_obl == 0:
+            del cov["obligations"], cov["discharged"]
     ev = {
         "property_id": pid,
         "tier": tier,
         "seed": seed,
-        "level": "proof",
+        "level": level,
         "coverage": cov,
         "assumptions": getattr(mod, "ASSUMPTIONS", []),
         "wall_s": round(time.time() - ctx.t0, 2),
